@@ -309,8 +309,9 @@ static void runIsProb(vio::Cursor & c, vio::Out & o) {
 // Output: S1 A discount, T' [a][s][s1], R' [s][a] of the derived model, then the contributions
 // (s, a, s1, p, r) of the accumulation loop, recomputed here from the same beliefs (same root seed,
 // same model RNG state) with the library's own pieces and the returned discretizer.
-template <bool sparse>
+template <bool sparse, bool sparseSrc>
 static void runAmdp(vio::Cursor & c, vio::Out & o) {
+    using PM = std::conditional_t<sparseSrc, POMDP::SparseModel<MDP::SparseModel>, POMDP::Model<MDP::Model>>;
     const unsigned seed = (unsigned) c.nextSize();
     const size_t nBeliefs = c.nextSize(), buckets = c.nextSize();
     const size_t O = c.nextSize();
@@ -319,8 +320,20 @@ static void runAmdp(vio::Cursor & c, vio::Out & o) {
     if (obflat.size() != x.S * x.A * O) throw std::logic_error("harness: table size mismatch");
     T3 of(x.S, std::vector<std::vector<double>>(x.A, std::vector<double>(O)));
     { size_t k = 0; for (size_t s = 0; s < x.S; ++s) for (size_t a = 0; a < x.A; ++a) for (size_t ob = 0; ob < O; ++ob) of[s][a][ob] = obflat[k++]; }
-    POMDP::Model<MDP::Model> pm(O, of, x.S, x.A, x.t, x.r, x.d);
-    const POMDP::Model<MDP::Model> pm2 = pm;   // same tables AND same internal RNG state (BeliefGenerator samples through the model)
+    // dense source: checked (o, of, s, a, t, r, d) constructor.  Sparse source: the naive-table setter would
+    // drop observation probabilities <= 1e-6, so the observations go in through the SparseMatrix3D overload
+    // (validated, stored as given).
+    auto mk = [&] {
+        if constexpr (sparseSrc) {
+            PM m(O, x.S, x.A, x.t, x.r, x.d);
+            T3 ob(x.A, std::vector<std::vector<double>>(x.S, std::vector<double>(O)));
+            for (size_t s = 0; s < x.S; ++s) for (size_t a = 0; a < x.A; ++a) for (size_t k = 0; k < O; ++k) ob[a][s][k] = of[s][a][k];
+            m.setObservationFunction(toSparse3(ob, x.A, x.S, O));
+            return m;
+        } else return PM(O, of, x.S, x.A, x.t, x.r, x.d);
+    };
+    PM pm = mk();
+    const PM pm2 = pm;   // same tables AND same internal RNG state (BeliefGenerator samples through the model)
     const size_t S = x.S, A = x.A, S1 = S * buckets;
 
     POMDP::AMDP amdp(nBeliefs, buckets);
@@ -446,7 +459,12 @@ int main(int argc, char ** argv) {
         else if (kind == "ps") runSeq<POMDP::SparseModel<MDP::SparseModel>>(c, o);
         else if (kind == "isprob") runIsProb(c, o);
         else if (kind == "coop") runCoop(c, o);
-        else if (kind == "amdp") { const std::string v = c.next(); if (v == "s") runAmdp<true>(c, o); else runAmdp<false>(c, o); }
+        else if (kind == "amdp") {   // d|s = discretizeDense|Sparse of a dense POMDP; ds|ss = of a sparse POMDP
+            const std::string v = c.next();
+            if (v == "d") runAmdp<false, false>(c, o); else if (v == "s") runAmdp<true, false>(c, o);
+            else if (v == "ds") runAmdp<false, true>(c, o); else if (v == "ss") runAmdp<true, true>(c, o);
+            else throw std::logic_error("harness: unknown amdp variant " + v);
+        }
         else throw std::logic_error("harness: unknown case kind " + kind);
     });
 }
